@@ -173,6 +173,12 @@ static EXEC: Mutex<ExecState> = Mutex::new(ExecState {
 });
 static EXEC_CV: Condvar = Condvar::new();
 
+/// Number of tasks that have reached `exec_hook` so far (lets the harness wait, at the end
+/// of an invocation, for task threads that were spawned but had not checked in yet).
+pub fn exec_tickets() -> u64 {
+    EXEC.lock().unwrap_or_else(|e| e.into_inner()).next_ticket
+}
+
 pub fn set_executor(e: Option<Box<dyn Executor>>) {
     let mut st = EXEC.lock().unwrap_or_else(|e| e.into_inner());
     st.executor = e;
